@@ -63,6 +63,9 @@ def run_sessions(ctx, rep, sessions, relevant, classify=None, batch=1200, color=
             rep.sample({'label': lab, 'render': render, 'events': [e['in'] for e in trace['events'][:6]],
                         'first_observed_items': [i for e in trace['events'][:3] for i in e['obs']['items']][:4]})
         pending.append((trace, render, lab))
+        if 'ToolStuck' in trace.get('escaped', ''):
+            # the tool hangs or keeps growing in this process: what was recorded so far is judged, nothing more is fed in
+            break
         if len(pending) >= batch:
             flush()
     flush()
